@@ -128,6 +128,22 @@ class CallMixin:
             if name == 'min':
                 return f'(({tb} < {ta}) ? {tb} : {ta})'
             return f'(({ta} < {tb}) ? {tb} : {ta})'
+        if name in ('min', 'max') and len(args) == 1:
+            # std::min<T>({a, b, c}): initializer-list form, folded left to right (first extreme element, like the library)
+            il = args[0]
+            while il.get('kind') != 'InitListExpr':
+                inner = il.get('inner')
+                if not inner:
+                    raise LoweringError(f'std::{name} with one argument that is not an initializer list')
+                il = inner[0]
+            t = rt.strip_ref()
+            if t.kind != 'prim':
+                raise LoweringError(f'std::{name} initializer-list form on {t!r}')
+            items = [self.hoist_pure(t, self.value_of(x)) for x in il.get('inner', [])]
+            acc = items[0]
+            for x in items[1:]:
+                acc = f'(({x} < {acc}) ? {x} : {acc})' if name == 'min' else f'(({acc} < {x}) ? {x} : {acc})'
+            return acc
         if name == 'clamp' and len(args) == 3:
             t = rt.strip_ref()
             v, lo, hi = [self.hoist_pure(t, self.value_of(a)) for a in args]
